@@ -118,10 +118,10 @@ def offenders(census):
     good = len(sb) == 2 and sorted(s["callee"] for s in sb) == ["SeedNumpy", "SeedPython"] and all(s["arg"] == "ArgParam" for s in sb)
     if not good or not census["seed_exported"]:
         off.append({"theorem": "manual_seed_seeds_both", "row": {"seed_body": sb, "exported": census["seed_exported"]}})
-    for h in census["hash_defs"]:
+    for h in census["hash_defs"] + census.get("order_defs", []):
         off.append({"theorem": "no_address_or_hash_dependence", "row": h})
     for s in census["sorts"]:
-        if not s["has_key"]:
+        if not (s["has_key"] or s.get("elems") == "ElemsNumeric"):
             off.append({"theorem": "no_address_or_hash_dependence", "row": s})
     for s in census["uninits"]:
         if not (s["file"] == "tensor.py" and s["func"] == "empty"):
